@@ -234,6 +234,45 @@ def run(cx):
     log_lookup_siblings(cx, "C15.i")
     from props.shared import resend_ref_in_own_frame
     resend_ref_in_own_frame(cx, "C15.j")
+    group_width(cx, "C15.k")
+
+
+def group_width(cx, iid):
+    """T7: an ack group is applied over all of its bits: the width is (index of the highest set bit) + 1, up to the
+    full 32.  Accepted spellings: the reverse scan `for i in (0..32).rev() { if bitfield & (1 << i) != 0 { size = i + 1; break } }`
+    and `32 - bitfield.leading_zeros()`; both loops of acknowledge_group run over 0..width."""
+    R = cx.R
+    with cx.instance(iid, "T7 SHAPE", "acknowledge_group covers bits 0..=highest set bit of the 32-bit field in both of its passes", floor=2) as inst:
+        b = R.body(AG)
+        rngs = [show(b.call_expr(t)) for l, t in b.calls("I::into_iter") if re.fullmatch(r"I::into_iter\(Range\{0,.*\}\)", show(b.call_expr(t)))]
+        inst.site(b, None, "passes: %s" % rngs)
+        ws = {re.fullmatch(r"I::into_iter\(Range\{0,(.*)\}\)", r).group(1) for r in rngs}
+        if len(rngs) != 2 or len(ws) != 1:
+            inst.violation(b.path, "passes", "expected the checking and the applying pass to run over the same 0..width (found %s)" % rngs)
+            return
+        w = ws.pop()
+        ok = False
+        if w == "sub(32,u32::leading_zeros(arg2.bitfield))":
+            ok = True
+            inst.site(b, None, "width = 32 - leading_zeros(bitfield)")
+        m = re.fullmatch(r"var(\d+)", w)
+        if m:
+            n = int(m.group(1))
+            defs = sorted(show(b.rvalue_expr(node["rv"])) if kind == "assign" else show(b.call_expr(node)) for loc, kind, node in b.defs.get(n, []))
+            inst.site(b, None, "width defs: %s" % defs)
+            scan = [show(b.call_expr(t)) for l, t in b.calls("I::into_iter") if "Iterator::rev(Range{0,32})" in show(b.call_expr(t))]
+            if len(defs) == 2 and defs[0] == "0" and re.fullmatch(r"add\((1,Rev::next\(var\d+\)@Some\.0|Rev::next\(var\d+\)@Some\.0,1)\)", defs[1]) and scan:
+                # the assignment happens under the bit test of the scanned index
+                fa = cx.fa(b)
+                for loc, kind, node in b.defs.get(n, []):
+                    v = show(b.rvalue_expr(node["rv"])) if kind == "assign" else ""
+                    if v.startswith("add("):
+                        g, _ = dnf_holds(fa.at(loc), [[r"ne\(0,bitand\(arg2\.bitfield,shl\(1,Rev::next\(var\d+\)@Some\.0\)\)\)"]])
+                        ok = g
+            elif defs == ["sub(32,u32::leading_zeros(arg2.bitfield))"]:
+                ok = True
+        if not ok:
+            inst.violation(b.path, "group width", "the ack group width is `%s`: not the position of the highest set bit + 1 (a capped or shifted width leaves acknowledged frames unmarked and breaks the nonce parity)" % w)
 
 
 def log_lookup_siblings(cx, iid):
@@ -250,7 +289,15 @@ def log_lookup_siblings(cx, iid):
                 idx[fn] = re.sub(r"^VecDeque::get(_mut)?", "", e)
         if len(idx) != 2 or len(set(idx.values())) != 1:
             inst.violation("half_connection::frame_queue::FrameLog", "get_frame / get_frame_mut", "the checking and the applying lookup disagree: %s" % idx)
-        elif not re.fullmatch(r"\(arg1\.frames,cast<usize>\(u32::wrapping_sub\(arg2,arg1\.base_id\)\)\)", list(idx.values())[0]):
+        dr = R.body("FrameLog::drain")
+        dcalls = [(l, show(dr.call_expr(t))) for l, t in dr.calls("VecDeque::drain")]
+        bws = [(l, show(dr.rvalue_expr(n["rv"]))) for l, n, ps in dr.field_writes(r"arg1\.base_id") if n["k"] == "assign"]
+        inst.site(dr, None, "drain: %s ; base_id = %s" % ([c for _, c in dcalls], [v for _, v in bws]))
+        if [c for _, c in dcalls] != ["VecDeque::drain(arg1.frames,RangeTo{cast<usize>(u32::wrapping_sub(arg2,arg1.base_id))})"] or [v for _, v in bws] != ["arg2"]:
+            inst.violation(dr.path, "drain", "FrameLog::drain must remove exactly the entries below the new base (modular distance) and then move base_id to it: %s / %s" % ([c for _, c in dcalls], [v for _, v in bws]))
+        elif dr.reach_from_entry_avoiding(bws[0][0], [dcalls[0][0]]) is not None or dr.reach_exit_avoiding(dcalls[0][0], [bws[0][0]]) is not None:
+            inst.violation(dr.path, "drain order", "the entries are not removed before base_id moves on every path")
+        if len(idx) == 2 and len(set(idx.values())) == 1 and not re.fullmatch(r"\(arg1\.frames,cast<usize>\(u32::wrapping_sub\(arg2,arg1\.base_id\)\)\)", list(idx.values())[0]):
             inst.violation("half_connection::frame_queue::FrameLog", "log index", "the frame log is indexed by `%s`, expected (id wrapping_sub base) as usize" % list(idx.values())[0])
 
 
